@@ -692,6 +692,29 @@ impl Runner {
       }
       insc.sort_by_key(|r| r["seq"].as_u64());
     }
+    let mut insc_idx = serde_json::Map::new();
+    for (k, r) in insc.iter().enumerate() {
+      insc_idx.insert(r["l"].as_str().unwrap().to_string(), json!(k + 1));
+    }
+    // every stored range sorted by start, and the order in which outputs are listed
+    let mut sorted: Vec<(u64, u64, String)> = Vec::new();
+    let mut out_order: Vec<String> = Vec::new();
+    for (label, o) in outs.iter() {
+      if o.get("absent").is_some() {
+        continue;
+      }
+      out_order.push(label.clone());
+      if let Some(r) = o.get("r").and_then(|r| r.as_array()) {
+        for pair in r {
+          let (a, b) = (pair[0].as_u64().unwrap(), pair[1].as_u64().unwrap());
+          if b > a {
+            sorted.push((a, b, label.clone()));
+          }
+        }
+      }
+    }
+    sorted.sort();
+    let sorted: Vec<Value> = sorted.into_iter().map(|(a, b, l)| json!([a, b, l])).collect();
     let dump = index.verif_dump()?;
     let stat = |k: &str| -> u64 {
       dump["STATISTIC_TO_COUNT"]
@@ -894,6 +917,9 @@ impl Runner {
       "unknownOuts": unknown_outs,
       "unknownRuneOuts": unknown_rune_outs,
       "insc": insc,
+      "inscIdx": insc_idx,
+      "sorted": sorted,
+      "outOrder": out_order,
       "nEntries": n_entries,
       "nIds": n_ids,
       "nNumbers": n_numbers,
